@@ -370,8 +370,10 @@ def run(R):
         okw = any(any('k' in a and (a['k'].get('fn') or '').endswith('ConnectError') for a in t['args']) for fb in fam for bb, t in fb.calls(name='map_err'))
         R.check(okw, 'C14.R5', 'connect-errors-wrapped', site(call), '.map_err(ConnectError) on the connect future')
         fs = tonic.body('status::find_status_in_source_chain')
-        dcs = [(bb, t) for bb, t in fs.calls(name='downcast_ref') if any('ConnectError' in g for g in t.get('ga', []))]
+        ffs = family(tonic, fs)   # the rungs of the chain walk may be functions of their own (named, or listed in a table)
+        dcs = [(m_, bb, t) for m_, bb, t in fam_calls(ffs, name='downcast_ref') if any('ConnectError' in g for g in t.get('ga', []))]
         R.check(len(dcs) == 1, 'C14.R5', 'downcast-connect-error', site(fs), 'downcast_ref::<ConnectError> sites: %d' % len(dcs))
-        un = fs.calls(pat='Status::unavailable')
-        oku = any(any('downcast_ref' in show(tm) and vals == [1] for s, vals, tm in fs.edge_guards(bb)) for bb, t in un)
+        un = fam_calls(ffs, pat='Status::unavailable')
+        is_ce_dc = lambda x: is_call(x, name='downcast_ref') and any('ConnectError' in g for g in (x[4].get('ga') or []))
+        oku = any(any(guard_is_some(tm, vals, is_ce_dc) for s, vals, tm in m_.edge_guards(bb)) for m_, bb, t in un)
         R.check(oku, 'C14.R5', 'connect-error->unavailable', site(fs), 'Status::unavailable behind the ConnectError downcast: %r' % oku)
